@@ -12,6 +12,12 @@ package main
 // compared with the same question asked of FRESH objects built by the shortest
 // path from the current geometry and the user's options.
 //
+// Remove: `rm:<k>` removes the k-th shape PRESENT in the index (the object that was added is handed to
+// ShapeIndex.Remove).  Shape ids are never reused, so ids never appear in an answer: every shape is named by its
+// position among the present shapes (c13IDPos), on the long-lived side and on the fresh side (a new index holding
+// exactly the present shapes).  Every `query` step also asks one long-lived CrossingEdgeQuery / ContainsPointQuery
+// (c13LongLivedAnswer) and compares with a new query object per question.
+//
 // Histories are executed in a child process (`harness c13child`) so that a
 // self-deadlock or runtime abort of the library can never hang the harness.
 
@@ -421,15 +427,18 @@ func c13CallOp(kind, target string, l int) string {
 type c13State struct {
 	targets map[string]*c13Tgt // EdgeQuery targets are objects that live for the whole history (until the next newtgt of the name)
 	curT    *c13Tgt            // the target object of the last newtgt (tadd / tset act on it)
-	loop  *s2.Loop
-	poly  *s2.Polygon
-	index *s2.ShapeIndex
-	names []string   // shapes added since the last reset
-	objs  []s2.Shape // the very objects added (parallel to names)
-	eq    *s2.EdgeQuery
-	user  c13Opts
-	debug bool
-	curOp string
+	loop    *s2.Loop
+	poly    *s2.Polygon
+	index   *s2.ShapeIndex
+	names   []string   // shapes PRESENT in the index (added since the last reset and not removed), in id order
+	objs    []s2.Shape // the very objects added (parallel to names)
+	ids     []int32    // the ids Add returned for them (parallel to names); ids are never reused
+	eq      *s2.EdgeQuery
+	xq      *s2.CrossingEdgeQuery  // long-lived: created at the first `query` after an index change (add / rm / reset)
+	cq      *s2.ContainsPointQuery // long-lived, likewise
+	user    c13Opts
+	debug   bool
+	curOp   string
 }
 
 func c13NewState(a []string) *c13State {
@@ -458,8 +467,90 @@ func c13ShapeIdx(objs []s2.Shape, sh s2.Shape) int {
 	return -1
 }
 
-// c13IndexAnswer evaluates the fixed probe set on an index with NEW query objects.
-func c13IndexAnswer(index *s2.ShapeIndex, objs []s2.Shape) string {
+// c13IDPos names a shape id by IDENTITY: its position in the list of present shapes (ids = nil: a fresh index,
+// whose ids are the positions).  An id that belongs to no present shape is printed as "?<id>".
+func c13IDPos(ids []int32, id int32) string {
+	if ids == nil {
+		return strconv.Itoa(int(id))
+	}
+	for i, x := range ids {
+		if x == id {
+			return strconv.Itoa(i)
+		}
+	}
+	return fmt.Sprintf("?%d", id)
+}
+
+// Query edges for the REUSED CrossingEdgeQuery, ordered so that an earlier answer with few crossings is followed by
+// a question about low-numbered edges of the same small shape (<= 27 edges: the brute-force candidate path of
+// CrossingEdgeQuery.candidates): P0 edge 1 then edge 0 then edge 2, P2 likewise, P3, and the loops (index path).
+var c13LLEdges = [][4]float64{
+	{5, 20, 18, 24},          // P0 edge 1 (and L0, L1)
+	{5, 14, 15, 14.5},        // P0 edge 0
+	{5, 26, 15, 26.5},        // P0 edge 2 (and L1)
+	{-35, -40.5, -25, -39.5}, // P2 edge 1 (and L2)
+	{-35, -46, -25, -45.5},   // P2 edge 0
+	{40, 45, 50, 44},         // P3 edge 0
+	{-35, -80, -25, -10},     // G twice, L2, P2
+	{55, 100, 65, 140},       // L3, P3
+	{5, 14, 15, 14.5},        // P0 edge 0 again
+}
+
+// c13LongLivedAnswer asks ONE CrossingEdgeQuery and ONE ContainsPointQuery object (xq, cq) a fixed sequence of
+// questions; with xq == nil / cq == nil every single question goes to a NEW query object.  The answer of a reused
+// query object must not depend on the questions it answered before.
+func c13LongLivedAnswer(index *s2.ShapeIndex, objs []s2.Shape, xq *s2.CrossingEdgeQuery, cq *s2.ContainsPointQuery) string {
+	var b strings.Builder
+	X := func() *s2.CrossingEdgeQuery {
+		if xq != nil {
+			return xq
+		}
+		return s2.NewCrossingEdgeQuery(index)
+	}
+	C := func() *s2.ContainsPointQuery {
+		if cq != nil {
+			return cq
+		}
+		return s2.NewContainsPointQuery(index, s2.VertexModelSemiOpen)
+	}
+	for _, e := range c13LLEdges {
+		p, q := c13LL(e[0], e[1]), c13LL(e[2], e[3])
+		for i, sh := range objs {
+			for _, ct := range []s2.CrossingType{s2.CrossingTypeInterior, s2.CrossingTypeAll} {
+				r := append([]int(nil), X().Crossings(p, q, sh, ct)...)
+				sort.Ints(r)
+				fmt.Fprintf(&b, "x%d%v", i, r)
+			}
+		}
+		m := X().CrossingsEdgeMap(p, q, s2.CrossingTypeInterior)
+		var l []string
+		for sh, edges := range m {
+			ed := append([]int(nil), edges...)
+			sort.Ints(ed)
+			l = append(l, fmt.Sprintf("%03d%v", c13ShapeIdx(objs, sh), ed))
+		}
+		sort.Strings(l)
+		fmt.Fprintf(&b, "m%v;", l)
+	}
+	for _, pt := range c13IdxPoints {
+		p := c13LL(pt[0], pt[1])
+		var l []int
+		for _, sh := range C().ContainingShapes(p) {
+			l = append(l, c13ShapeIdx(objs, sh))
+		}
+		sort.Ints(l)
+		fmt.Fprintf(&b, "p%v", l)
+		for _, sh := range objs {
+			b.WriteString(bs(C().ShapeContains(sh, p)))
+		}
+		b.WriteByte(';')
+	}
+	return b.String()
+}
+
+// c13IndexAnswer evaluates the fixed probe set on an index with NEW query objects.  Shapes are named by identity
+// (position in objs / ids), never by raw id.
+func c13IndexAnswer(index *s2.ShapeIndex, objs []s2.Shape, ids []int32) string {
 	var b strings.Builder
 	cq := s2.NewContainsPointQuery(index, s2.VertexModelSemiOpen)
 	for _, p := range c13IdxPoints {
@@ -483,10 +574,10 @@ func c13IndexAnswer(index *s2.ShapeIndex, objs []s2.Shape) string {
 		fmt.Fprintf(&b, "X%v;", l)
 	}
 	for it := index.Iterator(); !it.Done(); it.Next() {
-		ids, ne, cc := s2.VerifIndexCellShapes(it.IndexCell())
 		fmt.Fprintf(&b, "C%016x", uint64(it.CellID()))
-		for i := range ids {
-			fmt.Fprintf(&b, "/%d.%d.%v", ids[i], ne[i], cc[i])
+		cids, ne, cc := s2.VerifIndexCellShapes(it.IndexCell())
+		for i := range cids {
+			fmt.Fprintf(&b, "/%s.%d.%v", c13IDPos(ids, cids[i]), ne[i], cc[i])
 		}
 		b.WriteByte(';')
 	}
@@ -504,13 +595,18 @@ func c13FreshIndex(names []string) (*s2.ShapeIndex, []s2.Shape) {
 	return index, objs
 }
 
-func c13ResStr(r s2.EdgeQueryResult) string {
-	return fmt.Sprintf("%d/%d/%016x", r.ShapeID(), r.EdgeID(), math.Float64bits(float64(r.Distance())))
+func c13ResStr(r s2.EdgeQueryResult, ids []int32) string {
+	sid := "-1"
+	if r.ShapeID() >= 0 {
+		sid = c13IDPos(ids, r.ShapeID())
+	}
+	return fmt.Sprintf("%s/%d/%016x", sid, r.EdgeID(), math.Float64bits(float64(r.Distance())))
 }
 
 // c13DoCall: fresh = false uses the target object of this history (created at first use unless a newtgt did);
 // fresh = true rebuilds target index + target from the object's current shape list and settings.
-func c13DoCall(e *s2.EdgeQuery, f []string, cache map[string]*c13Tgt, fresh bool) string {
+// ids: the ids of the present shapes of the queried index (nil for a fresh index): results name shapes by identity.
+func c13DoCall(e *s2.EdgeQuery, f []string, cache map[string]*c13Tgt, fresh bool, ids []int32) string {
 	kind, tname := f[1], f[2]
 	tg := cache[tname]
 	if tg == nil {
@@ -547,11 +643,11 @@ func c13DoCall(e *s2.EdgeQuery, f []string, cache map[string]*c13Tgt, fresh bool
 	case "fes":
 		var l []string
 		for _, r := range e.FindEdges(t) {
-			l = append(l, c13ResStr(r))
+			l = append(l, c13ResStr(r, ids))
 		}
 		return fmt.Sprintf("%d%v", len(l), l)
 	case "fe":
-		return c13ResStr(s2.VerifFindEdge(e, t))
+		return c13ResStr(s2.VerifFindEdge(e, t), ids)
 	case "dist":
 		return fmt.Sprintf("%016x", math.Float64bits(float64(e.Distance(t))))
 	case "less":
@@ -622,20 +718,41 @@ func (st *c13State) exec(op string) (answer string, kind int, optsok bool) {
 		if c13AddOp(f[1]) != op {
 			c13Bad("add-mismatch-want-%s", c13AddOp(f[1]))
 		}
-		st.index.Add(sh)
+		id := st.index.Add(sh)
 		st.names = append(st.names, f[1])
 		st.objs = append(st.objs, sh)
-		st.eq = nil
+		st.ids = append(st.ids, id)
+		st.eq, st.xq, st.cq = nil, nil, nil
+		return "", 0, false
+	case "rm":
+		// rm:<k>: Remove the k-th shape present in the index (k from 0), named by the object that was added
+		if len(f) != 2 {
+			c13Bad("rm-arity")
+		}
+		k, err := strconv.Atoi(f[1])
+		if err != nil || k < 0 || k >= len(st.objs) {
+			c13Bad("rm-no-such-shape-%s", f[1])
+		}
+		st.index.Remove(st.objs[k])
+		st.names = append(append([]string(nil), st.names[:k]...), st.names[k+1:]...)
+		st.objs = append(append([]s2.Shape(nil), st.objs[:k]...), st.objs[k+1:]...)
+		st.ids = append(append([]int32(nil), st.ids[:k]...), st.ids[k+1:]...)
+		st.eq, st.xq, st.cq = nil, nil, nil
 		return "", 0, false
 	case "build":
 		st.index.Build()
 		return "", 0, false
 	case "reset":
 		st.index.Reset()
-		st.names, st.objs, st.eq = nil, nil, nil
+		st.names, st.objs, st.ids, st.eq, st.xq, st.cq = nil, nil, nil, nil, nil, nil
 		return "", 0, false
 	case "query":
-		return c13IndexAnswer(st.index, st.objs), 1, false
+		a := c13IndexAnswer(st.index, st.objs, st.ids)
+		if st.xq == nil {
+			st.xq = s2.NewCrossingEdgeQuery(st.index)
+			st.cq = s2.NewContainsPointQuery(st.index, s2.VertexModelSemiOpen)
+		}
+		return a + "|LL|" + c13LongLivedAnswer(st.index, st.objs, st.xq, st.cq), 1, false
 	case "neweq":
 		st.user = c13ParseOpts(f)
 		st.eq = s2.NewClosestEdgeQuery(st.index, st.user.build())
@@ -647,7 +764,7 @@ func (st *c13State) exec(op string) (answer string, kind int, optsok bool) {
 		if len(f) < 4 {
 			c13Bad("call-arity")
 		}
-		a := c13DoCall(st.eq, f, st.targets, false)
+		a := c13DoCall(st.eq, f, st.targets, false, st.ids)
 		return a, 2, st.user.holds(st.eq)
 	case "newtgt":
 		if len(f) != 4 {
@@ -718,10 +835,10 @@ func (st *c13State) ref(op string) string {
 	switch f[0] {
 	case "query":
 		index, objs := c13FreshIndex(st.names)
-		return c13IndexAnswer(index, objs)
+		return c13IndexAnswer(index, objs, nil) + "|LL|" + c13LongLivedAnswer(index, objs, nil, nil)
 	case "call":
 		index, _ := c13FreshIndex(st.names)
-		return c13DoCall(s2.NewClosestEdgeQuery(index, st.user.build()), f, st.targets, true)
+		return c13DoCall(s2.NewClosestEdgeQuery(index, st.user.build()), f, st.targets, true, nil)
 	case "lcontains":
 		return c13LoopContains(s2.LoopFromPoints(append([]s2.Point(nil), st.loop.Vertices()...)))
 	case "lcell":
@@ -1245,7 +1362,7 @@ func (c *c13Gen) dfs(lv int, pk string, pv int, prefix []string, alpha []string,
 	}
 	for _, s := range alpha {
 		ops := append(append([]string(nil), prefix...), s)
-		if c.filter != nil && !c.filter(ops) {
+		if (c.filter != nil && !c.filter(ops)) || !c13RmValid(ops) {
 			continue
 		}
 		// (a history skipped because it belongs to another shard counts as alive: its fate is
@@ -1254,6 +1371,26 @@ func (c *c13Gen) dfs(lv int, pk string, pv int, prefix []string, alpha []string,
 			c.dfs(lv, pk, pv, ops, alpha, depth-1)
 		}
 	}
+}
+
+// c13RmValid reports whether every rm:<k> of a history names a shape that is present at that point.
+func c13RmValid(ops []string) bool {
+	n := 0
+	for _, op := range ops {
+		switch {
+		case strings.HasPrefix(op, "add:"):
+			n++
+		case op == "reset":
+			n = 0
+		case strings.HasPrefix(op, "rm:"):
+			k, err := strconv.Atoi(op[3:])
+			if err != nil || k < 0 || k >= n {
+				return false
+			}
+			n--
+		}
+	}
+	return true
 }
 
 func c13NewEQ(maxResults int, limit, maxErr string, incl, brute int) string {
@@ -1306,12 +1443,33 @@ func genC13(g *G) {
 		c.run(8, "normal", 8, []string{L0, def, ti0, c13CallOp("dist", "ti0", 0), c13TaddOp("T3"), c13CallOp("dist", "ti0", 0)})
 	}
 
+	// Remove (work package c13remove).  Ids are never reused, so after a removal the ids of the present shapes are
+	// not 0..Len()-1: D52 (makeIndexCell used Len() as the shape-id sentinel: the present shape with id >= Len() lost
+	// its interior), D53 (CrossingEdgeQuery took Shape(0) for the single shape of an index); a removal of an indexed
+	// shape forces a full rebuild, a removal of a shape that was never indexed must leave no trace; removal of the
+	// only shape; removal + addition in one batch; removal followed by Reset.
+	L2, L3, G := c13AddOp("L2"), c13AddOp("L3"), c13AddOp("G")
+	c.run(8, "normal", 8, []string{L0, L1, L2, L3, "rm:0", "rm:0", "query"})
+	c.run(8, "normal", 8, []string{L0, L1, L2, L3, "build", "rm:0", "rm:0", "query"})
+	c.run(8, "normal", 8, []string{L0, L1, "rm:0", "query"})
+	c.run(8, "normal", 8, []string{L0, L1, "build", "rm:0", "query", "rm:0", "query"})
+	c.run(8, "normal", 8, []string{E, G, F, "rm:0", "query", "rm:0", "query"})
+	c.run(8, "normal", 8, []string{L0, G, "build", "rm:1", L2, "query", "rm:0", "build", P0, "query"})
+	c.run(8, "normal", 8, []string{L0, L1, "build", "rm:1", "reset", L2, "query"})
+	c.run(8, "normal", 8, []string{L0, P0, L2, "build", "rm:0", def, c13CallOp("fes", "tp1", 0), c13CallOp("dist", "tp0", 0), "rm:0", def, c13CallOp("fes", "tp1", 0)})
+	c.run(8, "normal", 8, []string{L0, P0, L2, "rm:0", c13NewEQ(math.MaxInt32, "inf", "v0", 1, 1), c13CallOp("fes", "tp1", 0), c13CallOp("fe", "tp0", 0)})
+
 	// Part 1: systematic enumeration.
 	depthIdx := 4
 	if g.thorough {
 		depthIdx = 5
 	}
-	c.dfs(8, "normal", 8, nil, []string{L0, E, "build", "reset", "query"}, depthIdx)
+	c.dfs(8, "normal", 8, nil, []string{L0, E, "build", "reset", "query", "rm:0"}, depthIdx)
+	// small shapes (<= 27 edges: brute-force candidate path of the reused CrossingEdgeQuery), alone and with others
+	c.dfs(8, "normal", 8, nil, []string{P0, c13AddOp("P2"), L0, "query", "rm:0"}, 4)
+	// three shapes (a loop, the loop around the tracker origin, a loop inside it), then all sequences over
+	// {remove first, remove second, build, query, add}
+	c.dfs(8, "normal", 8, []string{L0, G, L2}, []string{"rm:0", "rm:1", "build", "query", L3}, depthIdx)
 	for _, lv := range []int{64, 8, 1064} {
 		c.dfs(lv, "normal", 8, nil, []string{"inv", "lcontains", "lcell"}, 4)
 	}
@@ -1421,6 +1579,9 @@ func (m *c13Model) pick(r *RNG, risky bool) string {
 	if m.hasEQ {
 		l = append(l, wop{22, "call"}, wop{3, "eqreset"})
 	}
+	if len(m.names) > 0 {
+		l = append(l, wop{7, "rm"})
+	}
 	l = append(l, wop{5, "newtgt"})
 	if m.tgt.canTadd() {
 		l = append(l, wop{9, "tadd"}, wop{2, "tset"})
@@ -1461,6 +1622,15 @@ func (m *c13Model) pick(r *RNG, risky bool) string {
 		m.stale = true
 		m.hasEQ = false
 		return c13AddOp(name)
+	case "rm":
+		k := r.Intn(len(m.names))
+		if r.Intn(3) == 0 {
+			k = 0 // the smallest id: every other present shape then has an id > its position
+		}
+		m.names = append(append([]string(nil), m.names[:k]...), m.names[k+1:]...)
+		m.stale = true
+		m.hasEQ = false
+		return fmt.Sprintf("rm:%d", k)
 	case "reset":
 		m.n = 0
 		m.names = nil
